@@ -34,7 +34,7 @@ inductive Cls | dist | lognormal | reggauss | lik | eval | joint | post | mlp | 
 
 def Cls.letter : Cls → String
   | .dist => "d" | .lognormal => "n" | .reggauss => "r" | .lik => "L" | .eval => "E" | .joint => "J"
-  | .post => "P" | .mlp => "M" | .model => "A" | .geom => "g" | .cache => "c"
+  | .post => "P" | .mlp => "M" | .model => "A" | .geom => "g" | .cache => "d"   -- the shared Gaussian *is* a Gaussian
 
 /-- Is the class a `cuqi.distribution.Distribution` (what `JointDistribution._distributions` keeps)? -/
 def Cls.isDist : Cls → Bool
@@ -139,10 +139,10 @@ def St.condVars (s : St) (a : Nat) : List Nat := condVarsOfSlots (slotsOf (s.obj
     than their copies, so the walk is on strictly decreasing addresses). -/
 def St.nameOf (s : St) (a : Nat) : Val :=
   match s.get a .orig with
-  | .ref o => if h : o < a then St.nameOf s o else s.get a .name
+  | .ref o => if _h : o < a then St.nameOf s o else s.get a .name
   | _ => s.get a .name
 termination_by a
-decreasing_by exact h
+decreasing_by exact _h
 
 /-- name of any density: a likelihood reports the name of its distribution -/
 def St.nameAny (s : St) (a : Nat) : Val :=
@@ -225,12 +225,24 @@ def St.toLikelihood (s : St) (b : Nat) (data : Int) : St × Res :=
     let (s1, l) := s.alloc (Obj.ofList .lik [(.distr, .ref b), (.data, .num data)])
     (s1, .obj l)
 
+/-- The third mutable variable of a `Lognormal` is the property `_normal` (a property with a setter):
+    its value is a Gaussian, which is *callable* with no non-default arguments, so the loop of
+    `Distribution._condition` replaces it on the copy by `self._normal()` — the getter re-synchronises
+    the receiver's shared Gaussian, calling it makes a conditioned copy of that Gaussian. -/
+def St.condNormalSlot (s : St) (a b : Nat) : St :=
+  match s.cls a, s.get a .cacheG with
+  | .lognormal, .ref g =>
+    let s1 := s.resync a
+    let (s2, g') := s1.makeCopy g
+    s2.write b .cacheG (.ref g')
+  | _, _ => s
+
 /-- `Distribution._condition(**kw)` for a plain distribution / Lognormal -/
 def St.condDist (s : St) (a : Nat) (kw : Kw) : St × Res :=
   let o := s.obj a
   let cv := s.condVars a
   let (s1, b) := s.makeCopy a
-  let s2 := condSlots o kw s1 b
+  let s2 := (condSlots o kw s1 b).condNormalSlot a b
   let unused := kw.filter (fun p => !(cv.contains p.1))
   if unused.isEmpty then (s2, .obj b)
   else
